@@ -199,6 +199,10 @@ impl Bus {
         self.ports[p].rx_total += bytes.len() as u64;
     }
 
+    pub fn peek_rx(&self, p: usize) -> Vec<u8> {
+        self.ports[p].rx.clone()
+    }
+
     pub fn pending_rx(&mut self, p: usize, now: Us) -> usize {
         self.deliver(p, now);
         self.ports[p].rx.len()
